@@ -132,6 +132,9 @@ func sortedAfter(fn *ssa.Function, li *loopInfo) (ok bool, cmp *ssa.Function, wh
 		if li.body[u.Block()] {
 			continue
 		}
+		if _, isDbg := u.(*ssa.DebugRef); isDbg {
+			continue
+		}
 		for i, ins := range u.Block().Instrs {
 			if ins == u {
 				uses = append(uses, use{u.Block().Index, i, u})
